@@ -104,8 +104,7 @@ def handle (args : List String) : String :=
       | some c =>
         let (o, log) := (cli dbg W ⟨c⟩ W.runtime) []
         let code := match o with
-          | .ok .SUCCESS => "SUCCESS"
-          | .ok .FAILURE => "FAILURE"
+          | .ok c => if c.failed then "FAILURE" else "SUCCESS"
           | .err _ => "throw"
           | .panic => "panic"
         (code ++ " " ++ showEvents log).trimAscii.toString
